@@ -1,6 +1,7 @@
 package main
 
 import (
+	"time"
 	"flag"
 	"fmt"
 	"os"
@@ -48,6 +49,13 @@ func main() {
 		f, _ := os.Create(pf)
 		pprof.StartCPUProfile(f)
 		defer pprof.StopCPUProfile()
+		if secs, _ := strconv.Atoi(os.Getenv("VERIF_PROF_SECS")); secs > 0 {
+			go func() {
+				time.Sleep(time.Duration(secs) * time.Second)
+				pprof.StopCPUProfile()
+				os.Exit(3)
+			}()
+		}
 	}
 	seed, _ := strconv.ParseInt(os.Getenv("VERIF_SEED"), 10, 64)
 	code := runProperty(*prop, def, *tier, seed)
